@@ -130,6 +130,18 @@ def classes(ctx, dev, dev3, other):
         return tdgl.solve(d, runs.options(output_file=out, solve_time=0.02))
     yield "terminal-no-boundary", "gross", empty_terminal, (ValueError,)
 
+    # ... and one that holds a boundary VERTEX (a corner of the film) but covers no boundary edge: its length on the
+    # boundary is zero, the current density it would inject is infinite
+    def corner_terminal(size):
+        def b(out):
+            d = tdgl.Device("d", layer=zoo.layer(), film=P("film", points=box(5, 3, points=41)),
+                            terminals=[P("source", points=box(0.1, 2.7, center=(-2.5, 0))), P("drain", points=box(size, size, center=(2.5, 1.5)))])
+            d.make_mesh(max_edge_length=1.0)
+            return tdgl.solve(d, runs.options(output_file=out, solve_time=0.02))
+        return b
+    for size in (0.05, 1e-3, 1e-6):
+        yield "terminal-covers-no-boundary-edge", size, corner_terminal(size), (ValueError,)
+
     # seed solution from a different device
     seed = tdgl.solve(other, runs.options(solve_time=0.02, save_every=10))
     yield "seed-other-device", "gross", solve(seed_solution=seed), (ValueError,)
